@@ -37,9 +37,21 @@ def loc_pairs(loc, n):
         return pairs
     for p in loc.parts:
         st = p.strand if p.strand in (1, -1) else 0
+        if int(p.start) == int(p.end) and n:
+            # a site BETWEEN two bases (GenBank "34^35") covers no letter; it is pinned down by the two letters next to it
+            # (the label of the feature says so: see between_marker)
+            pairs.append((st, (int(p.start) - 1) % n))
+            pairs.append((st, int(p.start) % n))
         for i in range(int(p.start), int(p.end)):
             pairs.append((st, i % n))
     return pairs
+
+
+def between_marker(loc):
+    """'|^' for a location with a zero-length part (so that it is never confused with a two-letter feature)"""
+    if loc is None:
+        return ""
+    return "|^" if any(int(p.start) == int(p.end) for p in loc.parts) else ""
 
 
 def feature_label(f):
@@ -61,6 +73,8 @@ def ordered_parts(loc, n):
     for p in loc.parts:
         st = p.strand if p.strand in (1, -1) else 0
         idx = [i % n for i in range(int(p.start), int(p.end))]
+        if int(p.start) == int(p.end):
+            idx = [(int(p.start) - 1) % n, int(p.start) % n]
         if st == -1:
             idx = idx[::-1]
         out.append({"st": st, "idx": idx})
@@ -72,7 +86,7 @@ def project(rec):
     n = len(rec.seq)
     feats = []
     for f in rec.features:
-        feats.append({"lab": feature_label(f), "parts": runs(loc_pairs(f.location, n), n) if n else [],
+        feats.append({"lab": feature_label(f) + between_marker(f.location), "parts": runs(loc_pairs(f.location, n), n) if n else [],
                       "oparts": ordered_parts(f.location, n)})
     track = list(rec.letter_annotations.get("q", [])) if rec.letter_annotations else []
     from moclo.record import CircularRecord
